@@ -2,4 +2,260 @@ import TantivyModel.Model.Merge
 /-! helper lemmas for C04 (merge translation and updater reconciliation) -/
 namespace TantivyModel.Merge
 
+/-- lexicographic order on `(segment_ord, doc_id)` addresses -/
+def addrLt (a b : Nat × Nat) : Prop := a.1 < b.1 ∨ (a.1 = b.1 ∧ a.2 < b.2)
+
+/-- number of live docs in the sources before ordinal `s` -/
+def liveBase {α} (segs : List (Segment α)) (s : Nat) : Nat :=
+  ((segs.take s).map fun x => x.alive.count true).sum
+
+theorem isAlive_nil (d : Nat) : isAlive [] d = false := by simp [isAlive]
+
+theorem isAlive_cons_zero (a : Bool) (as : List Bool) : isAlive (a :: as) 0 = a := by
+  simp [isAlive]
+
+theorem isAlive_cons_succ (a : Bool) (as : List Bool) (d : Nat) :
+    isAlive (a :: as) (d + 1) = isAlive as d := by
+  simp [isAlive]
+
+theorem isAlive_lt {al : List Bool} {d : Nat} (h : isAlive al d = true) : d < al.length := by
+  unfold isAlive at h
+  by_cases hd : d < al.length
+  · exact hd
+  · simp [List.getD, List.getElem?_eq_none (Nat.le_of_not_lt hd)] at h
+
+/-! ### `doc_ids_alive` -/
+
+theorem liveIdsFrom_mem (al : List Bool) (i d : Nat) :
+    d ∈ liveIdsFrom i al ↔ i ≤ d ∧ isAlive al (d - i) = true := by
+  induction al generalizing i with
+  | nil => simp [liveIdsFrom, isAlive_nil]
+  | cons a as ih =>
+    unfold liveIdsFrom
+    by_cases hdi : d = i
+    · subst hdi
+      cases a <;> simp [ih, isAlive_cons_zero] <;> omega
+    · by_cases hlt : i < d
+      · have e : d - i = (d - (i + 1)) + 1 := by omega
+        cases a <;> simp [ih, e, isAlive_cons_succ, hdi] <;> omega
+      · cases a <;> simp [ih, hdi] <;> omega
+
+theorem liveIdsFrom_sorted (al : List Bool) (i : Nat) :
+    (liveIdsFrom i al).Pairwise (· < ·) := by
+  induction al generalizing i with
+  | nil => simp [liveIdsFrom]
+  | cons a as ih =>
+    unfold liveIdsFrom
+    cases a
+    · simpa using ih (i + 1)
+    · simp only [if_true, List.pairwise_cons]
+      refine ⟨?_, ih (i + 1)⟩
+      intro d hd
+      have := (liveIdsFrom_mem as (i + 1) d).1 hd
+      omega
+
+theorem liveIds_mem (al : List Bool) (d : Nat) : d ∈ liveIds al ↔ isAlive al d = true := by
+  simp [liveIds, liveIdsFrom_mem]
+
+theorem liveIdsFrom_length (al : List Bool) (i : Nat) :
+    (liveIdsFrom i al).length = al.count true := by
+  induction al generalizing i with
+  | nil => simp [liveIdsFrom]
+  | cons a as ih => cases a <;> simp [liveIdsFrom, ih]
+
+/-! ### the new→old table -/
+
+theorem newToOldFrom_mem {α} (segs : List (Segment α)) (i s d : Nat) :
+    (s, d) ∈ newToOldFrom i segs ↔
+      i ≤ s ∧ ∃ seg, segs[s - i]? = some seg ∧ isAlive seg.alive d = true := by
+  induction segs generalizing i with
+  | nil => simp [newToOldFrom]
+  | cons x rest ih =>
+    simp only [newToOldFrom, List.mem_append, List.mem_map, Prod.mk.injEq, ih]
+    constructor
+    · rintro (⟨d', hd', rfl, rfl⟩ | ⟨hle, seg, hseg, hal⟩)
+      · exact ⟨Nat.le_refl _, x, by simp, (liveIds_mem _ _).1 hd'⟩
+      · refine ⟨by omega, seg, ?_, hal⟩
+        have e : s - i = (s - (i + 1)) + 1 := by omega
+        rw [e]; simpa using hseg
+    · rintro ⟨hle, seg, hseg, hal⟩
+      by_cases hs : s = i
+      · subst hs
+        left
+        simp at hseg
+        subst hseg
+        exact ⟨d, (liveIds_mem _ _).2 hal, rfl, rfl⟩
+      · right
+        refine ⟨by omega, seg, ?_, hal⟩
+        have e : s - i = (s - (i + 1)) + 1 := by omega
+        rw [e] at hseg; simpa using hseg
+
+theorem newToOldFrom_sorted {α} (segs : List (Segment α)) (i : Nat) :
+    (newToOldFrom i segs).Pairwise addrLt := by
+  induction segs generalizing i with
+  | nil => simp [newToOldFrom]
+  | cons x rest ih =>
+    simp only [newToOldFrom]
+    rw [List.pairwise_append]
+    refine ⟨?_, ih (i + 1), ?_⟩
+    · rw [List.pairwise_map]
+      exact (liveIdsFrom_sorted x.alive 0).imp (fun h => Or.inr ⟨rfl, h⟩)
+    · intro a ha b hb
+      simp only [List.mem_map] at ha
+      obtain ⟨d, _, rfl⟩ := ha
+      obtain ⟨s, d'⟩ := b
+      have := (newToOldFrom_mem rest (i + 1) s d').1 hb
+      left
+      show i < s
+      omega
+
+theorem newToOldFrom_length {α} (segs : List (Segment α)) (i : Nat) :
+    (newToOldFrom i segs).length = (segs.map fun x => x.alive.count true).sum := by
+  induction segs generalizing i with
+  | nil => simp [newToOldFrom]
+  | cons x rest ih => simp [newToOldFrom, ih, liveIds, liveIdsFrom_length]
+
+theorem addrLt_irrefl (a : Nat × Nat) : ¬ addrLt a a := by
+  unfold addrLt; omega
+
+theorem newToOld_nodup {α} (segs : List (Segment α)) : (newToOld segs).Nodup := by
+  have h := newToOldFrom_sorted segs 0
+  exact h.imp (fun {a b} hab heq => by subst heq; exact addrLt_irrefl _ hab)
+
+/-! ### filling the old→new tables -/
+
+/-- address `(s, d)` is inside the table shape -/
+def inB (m : Tables) (s d : Nat) : Prop := ∃ row, m[s]? = some row ∧ d < row.length
+
+theorem getAddr_setAddr_same (m : Tables) (a : Nat × Nat) (n : Nat) (h : inB m a.1 a.2) :
+    getAddr (setAddr m a n) a.1 a.2 = some n := by
+  obtain ⟨row, hrow, hlt⟩ := h
+  simp [getAddr, setAddr, hrow, hlt]
+
+theorem getAddr_setAddr_other (m : Tables) (a : Nat × Nat) (n s d : Nat) (h : (s, d) ≠ a) :
+    getAddr (setAddr m a n) s d = getAddr m s d := by
+  obtain ⟨a1, a2⟩ := a
+  simp only [getAddr, setAddr, List.getElem?_modify]
+  by_cases hs : a1 = s
+  · subst hs
+    have hd : a2 ≠ d := by intro e; subst e; exact h rfl
+    cases hm : m[a1]? with
+    | none => simp
+    | some row => simp [hd]
+  · simp [hs]
+
+theorem inB_setAddr (m : Tables) (a : Nat × Nat) (n s d : Nat) :
+    inB (setAddr m a n) s d ↔ inB m s d := by
+  obtain ⟨a1, a2⟩ := a
+  simp only [inB, setAddr, List.getElem?_modify]
+  by_cases hs : a1 = s
+  · subst hs
+    cases hm : m[a1]? with
+    | none => simp
+    | some row => simp
+  · simp [hs]
+
+theorem getAddr_fillFrom_notMem (l : List (Nat × Nat)) (m : Tables) (k s d : Nat)
+    (h : (s, d) ∉ l) : getAddr (fillFrom m k l) s d = getAddr m s d := by
+  induction l generalizing m k with
+  | nil => rfl
+  | cons a rest ih =>
+    simp only [List.mem_cons, not_or] at h
+    simp only [fillFrom]
+    rw [ih _ _ h.2, getAddr_setAddr_other _ _ _ _ _ h.1]
+
+theorem getAddr_fillFrom_mem (l : List (Nat × Nat)) (m : Tables) (k s d j : Nat)
+    (hnd : l.Nodup) (hb : ∀ a ∈ l, inB m a.1 a.2) (hj : l[j]? = some (s, d)) :
+    getAddr (fillFrom m k l) s d = some (k + j) := by
+  induction l generalizing m k j with
+  | nil => simp at hj
+  | cons a rest ih =>
+    simp only [fillFrom]
+    rw [List.nodup_cons] at hnd
+    cases j with
+    | zero =>
+      simp at hj
+      subst hj
+      rw [getAddr_fillFrom_notMem _ _ _ _ _ hnd.1]
+      simpa using getAddr_setAddr_same m (s, d) k (hb _ (by simp))
+    | succ j' =>
+      simp at hj
+      have := ih (setAddr m a k) (k + 1) j' hnd.2
+        (fun b hbm => (inB_setAddr m a k b.1 b.2).2 (hb b (by simp [hbm]))) hj
+      rw [this]; congr 1; omega
+
+theorem getAddr_emptyTables {α} (segs : List (Segment α)) (s d : Nat) :
+    getAddr (emptyTables segs) s d = none := by
+  simp only [getAddr, emptyTables, List.getElem?_map]
+  cases segs[s]? with
+  | none => simp
+  | some seg =>
+    simp only [Option.map_some]
+    cases h : (List.replicate seg.alive.length (none : Option Nat))[d]? with
+    | none => rfl
+    | some v =>
+      rw [List.getElem?_eq_some_iff] at h
+      obtain ⟨_, h⟩ := h
+      simp at h
+      simp [← h]
+
+theorem newToOld_inB {α} (segs : List (Segment α)) :
+    ∀ a ∈ newToOld segs, inB (emptyTables segs) a.1 a.2 := by
+  rintro ⟨s, d⟩ ha
+  obtain ⟨_, seg, hseg, hal⟩ := (newToOldFrom_mem segs 0 s d).1 ha
+  refine ⟨List.replicate seg.alive.length none, ?_, ?_⟩
+  · simp only [emptyTables, List.getElem?_map]
+    simp at hseg
+    simp [hseg]
+  · simpa using isAlive_lt hal
+
+/-- the filled tables are the partial inverse of the new→old table -/
+theorem oldToNew_inverse {α} (segs : List (Segment α)) (s d n : Nat) :
+    getAddr (oldToNew segs) s d = some n ↔ (newToOld segs)[n]? = some (s, d) := by
+  unfold oldToNew
+  constructor
+  · intro h
+    by_cases hm : (s, d) ∈ newToOld segs
+    · obtain ⟨j, hj⟩ := List.getElem?_of_mem hm
+      have := getAddr_fillFrom_mem _ (emptyTables segs) 0 s d j (newToOld_nodup segs)
+        (newToOld_inB segs) hj
+      rw [this] at h
+      simp at h
+      subst h
+      exact hj
+    · rw [getAddr_fillFrom_notMem _ _ _ _ _ hm, getAddr_emptyTables] at h
+      cases h
+  · intro h
+    have := getAddr_fillFrom_mem _ (emptyTables segs) 0 s d n (newToOld_nodup segs)
+      (newToOld_inB segs) h
+    simpa using this
+
+/-- deleted documents (and out-of-range addresses) have no new id -/
+theorem oldToNew_none {α} (segs : List (Segment α)) (s d : Nat)
+    (h : ∀ seg, segs[s]? = some seg → isAlive seg.alive d = false) :
+    getAddr (oldToNew segs) s d = none := by
+  unfold oldToNew
+  have hm : (s, d) ∉ newToOld segs := by
+    intro hm
+    obtain ⟨_, seg, hseg, hal⟩ := (newToOldFrom_mem segs 0 s d).1 hm
+    simp at hseg
+    rw [h seg hseg] at hal
+    cases hal
+  rw [getAddr_fillFrom_notMem _ _ _ _ _ hm, getAddr_emptyTables]
+
+/-! ### updater -/
+
+theorem endMergeWith_discard_epoch (b : Bool) (st : State) (r : Running) (h : r.epoch ≠ st.epoch) :
+    endMergeWith b st r = st := by
+  simp [endMergeWith, h]
+
+theorem endMergeWith_discard_missing (b : Bool) (st : State) (r : Running)
+    (hu : containsAll st.uncommitted r.sources = false)
+    (hc : containsAll st.committed r.sources = false) :
+    endMergeWith b st r = st := by
+  unfold endMergeWith
+  split
+  · rfl
+  · simp [hu, hc]
+
 end TantivyModel.Merge
